@@ -1,6 +1,6 @@
 """C25 - any suppression file never crashes the tools (null / index clauses)."""
 from rules import null_rules as nr
-from rules import idx_rule, inassert_rule
+from rules import idx_rule, inassert_rule, parseprog_rule, streammodel
 
 UNITS = None    # whole program: regex::match is called from the corpus and tools code too
 
@@ -16,7 +16,7 @@ def run(ctx):
                   "checked before use; every property object always holds a value; constant subscripts on "
                   "input-filled vectors are size-guarded; no assertion on input-derived data in the INI/suppression "
                   "parsers")
-    ctx.rules = ["R-RXNULL", "R-NULLABLE", "INV-PROPVALUE", "R-IDX", "R-INASSERT"]
+    ctx.rules = ["R-RXNULL", "R-NULLABLE", "INV-PROPVALUE", "R-IDX", "R-INASSERT", "R-SYMOWN", "INV-FNCALLEXPR", "R-PARSEPROG", "R-READCONTRACT", "R-READPRE"]
     P = ctx.program(UNITS)
     n = nr.rxnull(ctx, P)
     ctx.floor("R-RXNULL", "regex::match call sites", n, 40)
@@ -27,11 +27,87 @@ def run(ctx):
     for cls in PROPERTY_CLASSES:
         k += nr.field_invariant_nonnull(ctx, P, cls + "::priv", "value_", "INV-PROPVALUE")
     ctx.floor("INV-PROPVALUE", "constructors/stores of property values", k, 6)
+    k = nr.field_invariant_nonnull(ctx, P, "abigail::suppr::type_suppression::insertion_range::fn_call_expr_boundary::priv",
+                                   "expr_", "INV-FNCALLEXPR")
+    ctx.floor("INV-FNCALLEXPR", "constructors/stores of the function-call expression of an insertion-range boundary", k, 1)
     k = idx_rule.run(ctx, P, funcs, "C25")
     ctx.floor("R-IDX", "constant subscripts / front / back in the INI and suppression parsers", k, 10)
     prod = lambda d: d["n"] in INI_PRODUCERS and d["q"].startswith("abigail::ini")
     ns, ni = inassert_rule.run(ctx, P, funcs, "C25", producers=prod)
     ctx.floor("R-INASSERT", "assertion sites in the INI and suppression parsers", ns, 25)
+    check_symown(ctx)
+    k = parseprog_rule.check(ctx, P)
+    ctx.floor("R-PARSEPROG", "parse loops of the INI reader that call a sub-parser", k, 4)
+    k = streammodel.check_contract(ctx, P)
+    ctx.floor("R-READCONTRACT", "abstract reader states in which good() holds after peek()", k, 3)
+    k = streammodel.check_sites(ctx, P, parseprog_rule.consumers(P)[1])
+    ctx.floor("R-READPRE", "asserted read_next_char() calls of the INI reader", k, 12)
     ctx.note("R-INASSERT: the INI reader's ABG_ASSERT(read_next_char(c)) / ABG_ASSERT(c == X) follow a peek() of the "
              "same character and are internal consistency checks: the stream primitives are not in the input-accessor "
              "table (no input reaches them with the asserted fact false)")
+
+
+
+def check_symown(ctx):
+    """R-SYMOWN: suppression specifications with `drop = yes` (and kernel whitelists) reach symtab::load_ as its
+    `is_suppressed` predicate.  The alias ring of elf_symbol is made of weak pointers, so whatever is linked into it has to
+    be owned by the symtab: in both worlds of the predicate, every path from elf_symbol::create() to the calls that link
+    the symbol (setup_symbol_lookup_tables -> add_alias, add_common_instance) passes a push of that symbol into an owning
+    member container.  A suppressed symbol that nothing owns is destroyed at the end of the iteration and leaves an
+    expired link in the ring, which the next walk dereferences."""
+    from engine.facts import walk, call_args, member_call_object, expr_str
+    from engine.cfg import strip_casts
+    from engine.compdb import AnalysisBroken
+    from rules.world import World
+    P = ctx.program(["src/abg-symtab-reader.cc"])
+    fs = [f for f in P.fn("abigail::symtab_reader::symtab::load_") if not f.dep and f.cfg() is not None and
+          any((f.decl(x) or {}).get("n") == "gelf_getsym" for x in f.nodes() if x["k"] == "CallExpr")]
+    if len(fs) != 1:
+        raise AnalysisBroken("anchor vanished: symtab::load_(Elf*, ...)")
+    f = fs[0]
+    ctx.analysed(f)
+    symv = [x.get("d") for x in f.nodes() if x["k"] == "VarDecl" and x.get("c") and x["c"][0] is not None and
+            any(y["k"] == "CallExpr" and (f.decl(y) or {}).get("n") == "create" for y in walk(x["c"][0]))]
+    if len(symv) != 1:
+        raise AnalysisBroken("anchor vanished: the elf_symbol::create() of symtab::load_")
+    sv = symv[0]
+    pred_p = [p for p in f.r["params"] if (f.unit.decl(p) or {}).get("n") == "is_suppressed"]
+    if not pred_p:
+        raise AnalysisBroken("anchor vanished: parameter is_suppressed of symtab::load_")
+    LINK = ("setup_symbol_lookup_tables", "add_common_instance", "add_alias")
+    for suppressed in (True, False):
+        seen_at_link = []
+
+        def atom(e):
+            if e["k"] in ("CallExpr", "CXXOperatorCallExpr", "CXXMemberCallExpr") and e.get("op", "()") == "()":
+                callee = strip_casts(e["c"][0]) if e.get("c") else None
+                if e["k"] == "CXXOperatorCallExpr" and any(y["k"] == "DeclRefExpr" and y.get("d") == pred_p[0] for y in walk(call_args(e)[0])):
+                    return [suppressed]
+            if e["k"] == "CXXMemberCallExpr" and ((f.decl(e) or {}).get("n") or "").startswith("operator bool"):
+                o = strip_casts(member_call_object(e))
+                if o is not None and o["k"] == "DeclRefExpr" and o.get("d") == pred_p[0]:
+                    return [True]
+            if e["k"] == "DeclRefExpr" and e.get("d") == pred_p[0]:
+                return [True]
+            return None
+
+        def effect(e, env):
+            if e["k"] == "VarDecl" and e.get("d") == sv:
+                env[-1] = frozenset([False])
+            if e["k"] == "CXXMemberCallExpr" and (f.decl(e) or {}).get("n") in ("push_back", "emplace_back", "insert", "emplace") and \
+                    any(y["k"] == "MemberExpr" and (f.decl(y) or {}).get("k") == "Field" for y in walk(member_call_object(e))) and \
+                    any(y["k"] == "DeclRefExpr" and y.get("d") == sv for a in call_args(e) for y in walk(a)):
+                env[-1] = frozenset([True])
+            if e["k"] in ("CallExpr", "CXXMemberCallExpr") and (f.decl(e) or {}).get("n") in LINK and \
+                    any(y["k"] == "DeclRefExpr" and y.get("d") == sv for a in call_args(e) for y in walk(a)):
+                seen_at_link.append((e, env.get(-1) == frozenset([True])))
+        W = World(f, atom, effect)
+        W.run_env(set())
+        if not seen_at_link:
+            raise AnalysisBroken("anchor vanished: symtab::load_ no longer links the symbols it creates")
+        bad = [e for e, ok in seen_at_link if not ok]
+        ctx.ob("R-SYMOWN", "symtab::load_: a %s symbol is owned by the symtab before it is linked into an alias ring" % (
+            "suppressed" if suppressed else "kept"), not bad, f.loc(bad[0]) if bad else f.loc(),
+            "pushed into a member container on every path to %s" % "/".join(sorted({(f.decl(e) or {}).get("n") for e, _ in seen_at_link})) if not bad else
+            "`%s` is reached with the symbol held by the loop variable only: the alias ring (weak pointers) keeps an expired link "
+            "when the iteration ends, and the next walk of the ring dereferences it" % expr_str(f, bad[0])[:60])
